@@ -48,6 +48,11 @@ def execute_run(desc: dict, deviations: dict[int, str] | None = None, *, want: t
     from .universe import Universe
 
     bootstrap.boot()
+    import gc
+
+    # collection timing depends on allocation history of the worker process, and Hypothesis' gc callback
+    # reads the (virtual) clock: keep the collector out of the run. Runs are short; the child is _exit'ed.
+    gc.disable()
     result: dict[str, Any] = {"run_seed": desc.get("run_seed"), "property": desc.get("property"), "status": "ok"}
     fatal: dict[str, Any] = {}
 
